@@ -62,6 +62,15 @@ def main():
         print("%-40s %s %s" % (name, status, detail if status != "CAUGHT" else ""))
         bad += status != "CAUGHT"
     print("%d mutants, %d not caught" % (len(res), bad))
+    if len(sys.argv) == 1:
+        with open(os.path.join(HERE, "mutants", "README.md"), "w") as f:
+            f.write("# Self-written mutants (tools/selftest.py)\n\nEach is applied to a scratch copy of /repo/src, must compile, and the named "
+                    "property's check must exit 1 with a violation key containing the expected text (`benign` ones must stay exit 0). "
+                    "`g*` = the pre-fix state of a genuine defect (reverse of the fix commit).\n\n| mutant | property | expected key | what it does | last result |\n|---|---|---|---|---|\n")
+            for (name, status, detail), mp in zip(res, metas):
+                m = json.load(open(mp))
+                f.write("| %s | %s | `%s` | %s | %s |\n" % (name, m["property"] if isinstance(m["property"], str) else ", ".join(m["property"]),
+                                                         m["expect"], m.get("note", ""), status))
     return 1 if bad else 0
 
 sys.exit(main())
